@@ -1,7 +1,7 @@
 (** Proofs/NNSSyntaxRecord.v — lemmas for C18, part 6: the dispatch of
     checkRecord on the record type, and the summary statements. *)
 From Verif Require Import Base.Prelude Model.NNSSyntax Spec.Grammar Proofs.NNSSyntaxLib
-  Proofs.NNSSyntax Proofs.NNSSyntaxIP4 Proofs.NNSSyntaxIP6 Proofs.NNSSyntaxBool.
+  Proofs.NNSSyntax Proofs.NNSSyntaxIP4 Proofs.NNSSyntaxIP6 Proofs.NNSSyntaxBool Proofs.NNSSyntaxF12.
 From Coq Require Import ZifyBool ZifyNat ZifyN.
 Local Open Scope Z_scope.
 
@@ -53,10 +53,9 @@ Proof.
   split; reflexivity.
 Qed.
 
-(** Record data against the grammar; the only gap is finding F12. *)
+(** Record data against the grammar. *)
 Theorem record_data_equiv typ data :
-  record_data_accepted typ data = true <->
-  valid_record_data typ data /\ ~ (typ = 28 /\ f12_shape data).
+  record_data_accepted typ data = true <-> valid_record_data typ data.
 Proof.
   rewrite dispatch, ipv4_equiv, name_accepted_iff, ipv6_equiv. unfold valid_record_data, len.
   intuition (try lia).
@@ -72,7 +71,7 @@ Proof.
 Qed.
 
 Lemma ipv6_rejection s :
-  ~ (valid_AAAA s /\ ~ f12_shape s) <-> (checkIPv6 s = Halt false \/ checkIPv6 s = Fault).
+  ~ valid_AAAA s <-> (checkIPv6 s = Halt false \/ checkIPv6 s = Fault).
 Proof.
   rewrite <- ipv6_equiv. destruct (checkIPv6 s) as [[|]|]; intuition (try discriminate; eauto).
 Qed.
